@@ -64,6 +64,14 @@ def check_post_order(idx: Index, rep: Report) -> None:
         inst = f"{nxt.fq}:{c.func.attr}"  # type: ignore[attr-defined]
         if c.func.attr == "extend" and isinstance(arg, (ast.GeneratorExp, ast.ListComp)):  # type: ignore[attr-defined]
             gen = arg.generators[0]
+            if not gen.ifs and isinstance(gen.iter, ast.Name):
+                # the batch was filtered when it was collected: `unseen = [x for x in ... if x not in seen]; extend((x, False) for x in unseen)`
+                from ..dataflow import reaching_defs as _rd
+
+                ds = [v for _, v in _rd(cfg, gen.iter.id, cfg.node_of(c)) if v is not None]
+                if len(ds) == 1 and isinstance(ds[0], (ast.ListComp, ast.GeneratorExp)) and len(ds[0].generators) == 1 and isinstance(ds[0].elt, ast.Name) and unparse(ds[0].generators[0].target) == ds[0].elt.id:
+                    inner = ds[0].generators[0]
+                    gen = ast.comprehension(target=gen.target, iter=inner.iter, ifs=[ast.parse(unparse(i_).replace(ds[0].elt.id, unparse(gen.target)), mode="eval").body for i_ in inner.ifs], is_async=0)
             var = unparse(gen.target)
             filt = [i for i in gen.ifs if isinstance(i, ast.Compare) and isinstance(i.ops[0], ast.NotIn) and _is_seen(i.comparators[0]) and unparse(i.left) == var]
             if not filt:
@@ -135,24 +143,28 @@ def check_post_order(idx: Index, rep: Report) -> None:
         if not isinstance(ret.value, ast.Name):
             raise AnalysisError(f"{nxt.fq}: return of a non-name")
         nret = cfg.node_of(ret)
-        whiles = [w for w in walk_local(nxt.node) if isinstance(w, ast.While) and unparse(w.test) == "not visited"]
-        if not whiles:
-            raise AnalysisError(f"{nxt.fq}: `while not visited` loop not found")
-        tests = {cfg.node_of(w.test) for w in whiles}
+        from ..astutil import conjuncts as _cj
+
         defs = reaching_defs(cfg, ret.value.id, nret)
-        ok = True
+        ok = bool(defs)
         for nid, val in defs:
             node = cfg.nodes[nid].ast
-            if not (isinstance(node, ast.Assign) and unparse(node.value) == "self.stack.pop()" and unparse(node.targets[0]) == f"({ret.value.id}, visited)"):
+            flag = None
+            if isinstance(node, ast.Assign) and unparse(node.value) == "self.stack.pop()" and isinstance(node.targets[0], ast.Tuple) and len(node.targets[0].elts) == 2 and unparse(node.targets[0].elts[0]) == ret.value.id:
+                flag = unparse(node.targets[0].elts[1])
+            if flag is None:
                 ok = False
-            if cfg.path_avoiding(nid, nret, lambda n: n.id in tests) is not None:
-                ok = False
-        # the edge into return must be the False edge of `not visited`
-        for p in cfg.pred[nret]:
-            if p in tests:
-                if ("F" not in [lab for m, lab in cfg.succ[p] if m == nret]):
-                    ok = False
-            else:
+                continue
+            others = {d for d, _ in defs if d != nid}
+
+            def establishes(n_: int, m_: int, lab, flag=flag) -> bool:
+                a_ = cfg.nodes[n_].ast
+                if a_ is None or lab not in ("T", "F") or not isinstance(a_, ast.expr):
+                    return False
+                return any(isinstance(t_, ast.Name) and t_.id == flag and pol for t_, pol in _cj(a_, lab == "T")) or any(unparse(t_) in (f"{flag} is True", f"{flag} == True") and pol for t_, pol in _cj(a_, lab == "T"))
+
+            # a path from the pop to the return on which `visited` is never established true
+            if cfg.path_avoiding(nid, nret, lambda n_: n_.id in others, follow_exc=False, edge_ok=lambda n_, m_, lab: not establishes(n_, m_, lab)) is not None:
                 ok = False
         # the successor list used is the popped block's terminator
         if ok:
@@ -167,8 +179,27 @@ def check_post_order(idx: Index, rep: Report) -> None:
         if it is None:
             loops = [w for w in walk_local(nxt.node) if isinstance(w, ast.For) and any(x is c for x in ast.walk(w))]
             it = loops[-1].iter if loops else None
-        txt = resolved_text(cfg, it, cfg.node_of(c)) if it is not None else "?"
-        if "block.last_op.successors" in txt:
+        at_ = cfg.node_of(c)
+        if isinstance(it, ast.Name):
+            ds_ = [(n_, v_) for n_, v_ in reaching_defs(cfg, it.id, at_) if v_ is not None]
+            if len(ds_) == 1 and isinstance(ds_[0][1], (ast.ListComp, ast.GeneratorExp)) and len(ds_[0][1].generators) == 1:
+                at_, it = ds_[0][0], ds_[0][1].generators[0].iter
+        txt = resolved_text(cfg, it, at_) if it is not None else "?"
+        # strip order / dedup wrappers, then: <t>.successors with <t> = <b>.last_op and <b> the block re-pushed as visited
+        core = it
+        while isinstance(core, ast.Call) and core.args and unparse(core.func) in ("reversed", "dict.fromkeys", "list", "tuple", "OrderedSet", "iter"):
+            core = core.args[0]
+        src_block = None
+        if isinstance(core, ast.Attribute) and core.attr == "successors":
+            t_ = core.value
+            if isinstance(t_, ast.Name):
+                ds2 = [v_ for _, v_ in reaching_defs(cfg, t_.id, at_) if v_ is not None]
+                t_ = ds2[0] if len(ds2) == 1 else t_
+            if isinstance(t_, ast.Attribute) and t_.attr == "last_op" and isinstance(t_.value, ast.Name):
+                src_block = t_.value.id
+        rp = repush[0].args[0]
+        repushed = unparse(rp.elts[0]) if isinstance(rp, ast.Tuple) and rp.elts else None
+        if src_block is not None and src_block == repushed:
             r.ok(nxt.fq, f"{nxt.loc} iterates {txt}")
         else:
             r.fail(nxt.fq, Finding("C24.R1d", nxt.fq, "successor-source", f"pushed successors come from `{txt}`, not from block.last_op.successors", nxt.loc))
